@@ -727,6 +727,37 @@ example : (initializersToConstants (fun n => "Constant:" ++ n)
 example : (initializersToConstants (fun n => "Constant:" ++ n)
     { inputs := ["X"], initializers := [], nodes := ["Relu"] }).nodes = ["Relu"] := by decide
 
+/-- **adapt_inline_refinement.** The property statements about inlined models with user-defined operators,
+    as corollaries of the one model function `adaptInline` (= `adapt_inline`, tied by the driver kinds `adapt`
+    and `initconst` and by the generated tables): for every inlined model, target version, converter and set of
+    introduced initializers
+    1. the nodes of other domains come out verbatim and in order;
+    2. nodes and imports of other domains have no influence on what happens to the default-domain nodes
+       (the result for the model with them = the result computed with the decision of the model without them);
+    3. a model already at the target version is emitted unchanged. -/
+theorem adapt_inline_refinement {ν : Type} (dom : ν → String) (conv : ν → List ν) (mkConst : String → ν)
+    (m : Inlined) (target : Nat) (inputs inits : List String) (nodes : List ν)
+    (hc : ∀ n, ∀ x ∈ conv n, isDefault (dom x) = true) (hk : ∀ n, isDefault (dom (mkConst n)) = true) :
+    (adaptInline dom conv mkConst m target inputs inits nodes).filter (fun n => !isDefault (dom n)) =
+      nodes.filter (fun n => !isDefault (dom n)) ∧
+    (∀ doms imps, (∀ d ∈ doms, isDefault d = false) → (∀ i ∈ imps, isDefault i.1 = false) →
+      adaptInline dom conv mkConst { imports := m.imports ++ imps, nodeDomains := m.nodeDomains ++ doms }
+        target inputs inits nodes = adaptInline dom conv mkConst m target inputs inits nodes) ∧
+    (sourceVersion m.imports target = target →
+      adaptInline dom conv mkConst m target inputs inits nodes = nodes) := by
+  refine ⟨adapt_nodes_keep_foreign dom conv mkConst _ inputs inits nodes hc hk, ?_, ?_⟩
+  · intro doms imps hd hi
+    simp only [adaptInline, adapt_ignores_foreign m target doms imps hd hi]
+  · intro hv
+    simp [adaptInline, CustomInline.decide, hv, adaptNodes]
+
+/-- non-vacuity: Pad-10 next to a custom node under target 19 (the converter makes `pads` an initializer) -/
+example : adaptInline (ν := String × String) Prod.fst
+      (fun n => [(n.1, n.2 ++ "'")]) (fun n => ("", "Constant:" ++ n))
+      { imports := [("", 10), ("my.domain", 2)], nodeDomains := ["my.domain", ""] } 19
+      ["X"] ["pads"] [("my.domain", "Op"), ("", "Pad")]
+      = [("", "Constant:pads"), ("my.domain", "Op"), ("", "Pad'")] := by decide
+
 /-- **adapt_inline_calls_covered** (tie G). The calls `adapt_inline` makes, as read from the source on this
     run, are the ones the model has a counterpart for (`decide`, `convertNodes`, `initializersToConstants`,
     re-emission): a further processing step added to it breaks this obligation. -/
